@@ -58,7 +58,15 @@ let () =
           (match l with n :: v :: r -> take (i - 1) r (put acc (n_of_int (int_of_string n)) (Some (n_of_int (int_of_string v)))) | _ -> failwith "bad init") in
       let (l0, ops) = take k rest (fun _ -> None) in
       let e = new_env (ar = "1") u (z_of_int (int_of_string size)) l0 in
-      let (_, xs) = run e (List.map parse_op ops) in
+      (* a:<0|1> sets env.auto_reload (a public attribute) between requests: the model's field is updated *)
+      let rec go e ops acc cur =
+        match ops with
+        | [] -> let (_, xs) = run e (List.rev cur) in List.rev_append acc xs
+        | o :: r when String.length o = 3 && String.sub o 0 2 = "a:" ->
+          let (e', xs) = run e (List.rev cur) in
+          go { e' with auto_reload = (o = "a:1") } r (OutUnit :: List.rev_append xs acc) []
+        | o :: r -> go e r acc (parse_op o :: cur) in
+      let xs = go e ops [] [] in
       print_endline (String.concat ";" (List.map show xs))
     | _ -> failwith ("bad line " ^ line)
   done with End_of_file -> ()
